@@ -73,7 +73,7 @@ func Match(fingerprint, target any) bool {
 		}
 	case float32, float64, gen.Float:
 		f0, _ := asFloat(fp)
-		if f1, ok := asFloat(target); !ok || f0 != f1 {
+		if !floatEqual(f0, target) {
 			return false
 		}
 	case string:
@@ -142,7 +142,7 @@ func diff(v0, v1 any, one bool, ignores ...Path) (diffs []Path) {
 		}
 	case float32, float64, gen.Float:
 		f0, _ := asFloat(v0)
-		if f1, ok := asFloat(v1); !ok || f0 != f1 {
+		if !floatEqual(f0, v1) {
 			diffs = append(diffs, Path{nil})
 		}
 	case string:
@@ -350,6 +350,23 @@ func asFloat(v any) (f float64, ok bool) {
 		ok = false
 	}
 	return
+}
+
+// floatEqual reports whether v is a number whose value is exactly f. An
+// integer is compared as an integer: float64(i) would round an integer above
+// 2^53 to the nearest float and make different numbers look equal.
+func floatEqual(f float64, v any) bool {
+	switch v.(type) {
+	case float64, float32, gen.Float:
+		f1, _ := asFloat(v)
+		return f == f1
+	}
+	if i, ok := asInt(v); ok { // the integer types
+		// -2^63 <= f < 2^63 makes int64(f) well defined, an integral f makes it exact.
+		return -9223372036854775808.0 <= f && f < 9223372036854775808.0 &&
+			float64(int64(f)) == f && int64(f) == i
+	}
+	return false
 }
 
 func ignoreIndex(i int, ignores []Path) bool {
